@@ -175,6 +175,12 @@ Section Wait.
     apply o4_inv_gstep. apply (o4_gstep_tbl aids s (set_abort s) []); try reflexivity; [apply o4_Cl_refl|constructor|constructor].
   Qed.
 
+  Lemma o4_inv_wait_reset c s : Inv s -> Inv (wait_reset sc c ids s).
+  Proof.
+    apply o4_inv_gstep. apply (o4_gstep_tbl aids s (wait_reset sc c ids s) []);
+      [apply wait_reset_tbl|apply wait_reset_cache|rewrite wait_reset_cl; apply o4_Cl_refl|apply wait_reset_tr|constructor|constructor].
+  Qed.
+
   Lemma o4_inv_wait_timeout g w : forall s, Inv s -> Inv (wait_timeout g s w).
   Proof.
     unfold wait_timeout. induction (w_pending w) as [|i l IH]; intros s I; cbn [fold_left]; [exact I|].
@@ -186,15 +192,15 @@ Section Wait.
     intros W. unfold wait_task. cbv zeta.
     pose proof (o4_ws_wait_start c g s W) as S1.
     destruct (wait_start c g ids s) as [s1 w1]. cbn [fst snd] in S1.
-    destruct (w_pending w1) eqn:EP; [apply S1|]. rewrite <- EP in *. clear EP.
+    destruct (w_pending w1) eqn:EP; [apply o4_inv_wait_reset; apply S1|]. rewrite <- EP in *. clear EP.
     destruct (match e_watch_err_at (sc_env sc) with Some n => Nat.eqb n (snd g) | None => false end);
       [apply o4_inv_set_abort; apply S1|].
     pose proof (o4_ws_deliver c g (w_deliv (nth (snd g) (e_waits (sc_env sc)) (mkW [] WTimeout))) s1 w1 S1) as S2.
     destruct (deliver sc c g ids _ s1 w1) as [s2 w2]. cbn [fst snd] in S2.
-    destruct (w_pending w2); [apply S2|].
+    destruct (w_pending w2); [apply o4_inv_wait_reset; apply S2|].
     destruct (w_end _).
     - destruct (match c with AllCurrent => _ | AllNotFound => _ end);
-        [apply o4_inv_wait_timeout; apply S2|apply o4_inv_set_abort; apply S2].
+        [apply o4_inv_wait_reset; apply o4_inv_wait_timeout; apply S2|apply o4_inv_set_abort; apply S2].
     - apply o4_inv_set_abort; apply S2.
   Qed.
 End Wait.
@@ -357,22 +363,22 @@ Section Run.
   Lemma o4_plan_disj j : In j aids -> ~ In j (map p_id (pl_prune pl)).
   Proof.
     rewrite plan_of_eq. intros Ha Hp.
-    apply (bp_disj sc (locals_of sc) (found_in c0 (cand_of sc c0))
+    apply (bp_disj sc (live_crds sc c0) (locals_of sc) (found_in sc c0 (cand_of sc c0))
              (locals_of_NoDup sc (WF_locals_nodup sc c0 HWF)) (pobjs_NoDup sc c0) (pobjs_disj sc c0) j Ha).
     apply in_map_iff in Hp. destruct Hp as [q [<- Hq]]. apply in_map. apply bp_prune_sub. exact Hq.
   Qed.
 
   Lemma o4_plan_local p l : In p (pl_apply pl) -> p_local p = Some l -> l_id l = p_id p.
   Proof.
-    rewrite plan_of_eq. intros Hp E. destruct (bp_apply_is_local sc _ _ p Hp) as [l' [-> _]].
+    rewrite plan_of_eq. intros Hp E. destruct (bp_apply_is_local sc _ _ _ p Hp) as [l' [-> _]].
     cbn in E. injection E as <-. reflexivity.
   Qed.
 
   Lemma o4_plan_cwf : o4_cwf pl [] (tasks_of sc pl).
   Proof.
     apply (o4_cwf_tasks_of sc pl HD o4_plan_disj o4_plan_local).
-    - rewrite plan_of_eq. intros layer p HL Hp. exact (bp_local_ok' sc _ _ layer p HL Hp).
-    - rewrite plan_of_eq. intros layer p HL Hp. exact (bp_prune_ok sc _ _ layer p HL Hp).
+    - rewrite plan_of_eq. intros layer p HL Hp. exact (bp_local_ok' sc _ _ _ layer p HL Hp).
+    - rewrite plan_of_eq. intros layer p HL Hp. exact (bp_prune_ok sc _ _ _ layer p HL Hp).
   Qed.
 
   (* the start state of the task list *)
@@ -393,7 +399,7 @@ Section Run.
       assert (NA : memn e (map p_id (pl_prune_all pl)) = false).
       { destruct (memn e (map p_id (pl_prune_all pl))) eqn:M; [|reflexivity]. apply memn_In in M. exfalso.
         revert He M. rewrite plan_of_eq. intros He M.
-        exact (bp_disj sc (locals_of sc) (found_in c0 (cand_of sc c0))
+        exact (bp_disj sc (live_crds sc c0) (locals_of sc) (found_in sc c0 (cand_of sc c0))
                  (locals_of_NoDup sc (WF_locals_nodup sc c0 HWF)) (pobjs_NoDup sc c0) (pobjs_disj sc c0) e He M). }
       rewrite NP, NA, !andb_false_r. rewrite (proj2 (memn_In e aids) He). exists APending, 0%N. reflexivity.
     - intros e st u He E. rewrite TV4, TV in E. exfalso.
